@@ -229,7 +229,7 @@ class Harness:
             from pyworkers.utils import Pipe
             kw['results_pipe'] = Pipe()          # what Pool.add_worker passes: a real pipe that the pool multiplexes
         if pers:
-            target = T.p_item_raise3 if case.get('ending') == 'exc' else T.p_item
+            target = T.p_item_raise3 if case.get('ending') == 'exc' else T.p_item_big if case.get('ending') == 'big' else T.p_item
             args = (mpath,)
         else:
             target = T.TARGETS[case['ending']]
@@ -339,6 +339,10 @@ class Harness:
                 term_ret = 'raised:' + type(e).__name__
             if st is not None:
                 st.go.set()
+        if term_ret == 'T' and isinstance(consumer, _PoolStyleConsumer):
+            # terminate() has just reported the worker dead: a consumer of the raw results endpoint (the Pool) must get its
+            # end-of-stream message or EOF without anybody calling wait()/is_alive()/next_result() on the worker
+            consumer.settle(4)
         bystander = 'na'
         if fault == 'term_after_finish':
             # the target has finished on its own and nobody has looked at the worker since; other threads come and go
@@ -701,6 +705,8 @@ def _setter(w):
 def _item_of(v, pos):
     """which item a delivered value is the result of (0 = none / foreign / not in its place)"""
     from vf import targets as T
+    if isinstance(v, tuple) and len(v) == 3 and v[0] == 'own' and v[2] == b'p' * (32 * 1024 * 1024):
+        v = v[:2]                               # the padded item of p_item_big, delivered intact
     if not (isinstance(v, tuple) and len(v) == 2 and v[0] == 'own' and isinstance(v[1], int)):
         return 0
     if v[1] == T.expected_value(pos):
@@ -767,9 +773,14 @@ class _PoolStyleConsumer:
         self.t = threading.Thread(target=loop, daemon=True)
         self.t.start()
 
+    def settle(self, timeout):
+        self.t.join(timeout)
+        self.settled = self.end or 'blocked'
+
     def finish(self, w):
         self.t.join(6)
-        return {'got': list(self.got), 'end': self.end or 'blocked', 'again': 'Empty' if self.end else 'na'}
+        end = getattr(self, 'settled', None) or self.end or 'blocked'
+        return {'got': list(self.got), 'end': end, 'again': 'Empty' if end == 'ended' else 'na'}
 
 
 def _drain_unobserved(w, items):
